@@ -1,0 +1,169 @@
+//go:build verif
+
+package grpc
+
+import (
+	"errors"
+	"sync"
+
+	"github.com/nuts-foundation/go-did/did"
+	"github.com/nuts-foundation/nuts-node/network/transport"
+	"google.golang.org/grpc/status"
+)
+
+// VerifSendFunc receives every envelope a protocol hands to VerifConnection.Send.
+type VerifSendFunc func(protocol Protocol, envelope interface{}, ignoreSoftLimit bool) error
+
+// VerifConnection is a Connection (the interface has unexported methods, so it can only be implemented here) without
+// gRPC streams: Send calls SendFn, the peer and the connected state are set by the harness.
+type VerifConnection struct {
+	// SendFn is called by Send while the connection is connected. Nil means: accept and drop.
+	SendFn VerifSendFunc
+
+	mux       sync.RWMutex
+	peer      transport.Peer
+	connected bool
+}
+
+var _ Connection = (*VerifConnection)(nil)
+
+// NewVerifConnection returns a connected VerifConnection to the given peer.
+func NewVerifConnection(peer transport.Peer, sendFn VerifSendFunc) *VerifConnection {
+	return &VerifConnection{SendFn: sendFn, peer: peer, connected: true}
+}
+
+// SetPeer replaces the peer information (ID, NodeDID, Authenticated, Address, Certificate) of the connection.
+func (c *VerifConnection) SetPeer(peer transport.Peer) {
+	c.setPeer(peer)
+}
+
+// SetConnected sets what IsConnected returns; Send fails while not connected.
+func (c *VerifConnection) SetConnected(connected bool) {
+	c.mux.Lock()
+	defer c.mux.Unlock()
+	c.connected = connected
+}
+
+func (c *VerifConnection) Send(protocol Protocol, envelope interface{}, ignoreSoftLimit bool) error {
+	c.mux.RLock()
+	connected, fn := c.connected, c.SendFn
+	c.mux.RUnlock()
+	if !connected {
+		return errors.New("can't send message, protocol not connected: " + protocol.MethodName())
+	}
+	if fn == nil {
+		return nil
+	}
+	return fn(protocol, envelope, ignoreSoftLimit)
+}
+
+func (c *VerifConnection) Peer() transport.Peer {
+	c.mux.RLock()
+	defer c.mux.RUnlock()
+	return c.peer
+}
+
+func (c *VerifConnection) IsConnected() bool {
+	c.mux.RLock()
+	defer c.mux.RUnlock()
+	return c.connected
+}
+
+func (c *VerifConnection) IsAuthenticated() bool {
+	return c.Peer().Authenticated
+}
+
+// disconnect mirrors conn.disconnect: the peer has to identify and authenticate again.
+func (c *VerifConnection) disconnect() {
+	c.mux.Lock()
+	defer c.mux.Unlock()
+	c.connected = false
+	c.peer.ID = ""
+	c.peer.NodeDID = did.DID{}
+	c.peer.Authenticated = false
+}
+
+func (c *VerifConnection) waitUntilDisconnected() {}
+
+func (c *VerifConnection) registerStream(_ Protocol, _ Stream) bool { return false }
+
+func (c *VerifConnection) setPeer(peer transport.Peer) {
+	c.mux.Lock()
+	defer c.mux.Unlock()
+	c.peer = peer
+}
+
+func (c *VerifConnection) verifyOrSetPeerID(id transport.PeerID) bool {
+	c.mux.Lock()
+	defer c.mux.Unlock()
+	if len(c.peer.ID) == 0 {
+		c.peer.ID = id
+		return true
+	}
+	return c.peer.ID == id
+}
+
+func (c *VerifConnection) closeError() *status.Status { return nil }
+
+// VerifConnectionList is a ConnectionList over VerifConnections with the query semantics of connectionList.
+type VerifConnectionList struct {
+	mux  sync.Mutex
+	list []*VerifConnection
+}
+
+var _ ConnectionList = (*VerifConnectionList)(nil)
+
+// NewVerifConnectionList returns a list holding the given connections.
+func NewVerifConnectionList(connections ...*VerifConnection) *VerifConnectionList {
+	return &VerifConnectionList{list: append([]*VerifConnection{}, connections...)}
+}
+
+// Add appends a connection.
+func (l *VerifConnectionList) Add(connection *VerifConnection) {
+	l.mux.Lock()
+	defer l.mux.Unlock()
+	l.list = append(l.list, connection)
+}
+
+// Remove removes a connection.
+func (l *VerifConnectionList) Remove(connection *VerifConnection) {
+	l.mux.Lock()
+	defer l.mux.Unlock()
+	for i, curr := range l.list {
+		if curr == connection {
+			l.list = append(l.list[:i:i], l.list[i+1:]...)
+			return
+		}
+	}
+}
+
+func (l *VerifConnectionList) Get(query ...Predicate) Connection {
+	// as connectionList.get: never return the first random connection by accident
+	if len(query) == 0 {
+		return nil
+	}
+	if matches := l.AllMatching(query...); len(matches) > 0 {
+		return matches[0]
+	}
+	return nil
+}
+
+func (l *VerifConnectionList) All() []Connection {
+	return l.AllMatching()
+}
+
+func (l *VerifConnectionList) AllMatching(query ...Predicate) []Connection {
+	l.mux.Lock()
+	defer l.mux.Unlock()
+	var result []Connection
+outer:
+	for _, curr := range l.list {
+		for _, predicate := range query {
+			if !predicate.Match(curr) {
+				continue outer
+			}
+		}
+		result = append(result, curr)
+	}
+	return result
+}
